@@ -270,7 +270,7 @@ func buildFile(methods []*MethodSpec) *descriptorpb.FileDescriptorProto {
 		Package: proto.String(fxPkg),
 		Syntax:  proto.String("proto3"),
 		Dependency: []string{
-			"google/api/annotations.proto", "google/api/httpbody.proto",
+			"google/api/annotations.proto", "google/api/http.proto", "google/api/httpbody.proto",
 			"google/protobuf/timestamp.proto", "google/protobuf/duration.proto",
 			"google/protobuf/field_mask.proto", "google/protobuf/wrappers.proto",
 			"google/protobuf/empty.proto", "google/protobuf/struct.proto",
